@@ -7,7 +7,7 @@ REPO = os.environ.get("VERIF_REPO", "/repo")
 BUILD = os.path.join(VERIF, "build")
 EVID = os.path.join(VERIF, "evidence")
 REPLAYS = os.path.join(VERIF, "replays")
-NCPU = min(16, os.cpu_count() or 4)
+NCPU = int(os.environ.get("VERIF_WORKERS") or min(16, os.cpu_count() or 4))
 SCRATCH = "/dev/shm" if os.path.isdir("/dev/shm") and os.access("/dev/shm", os.W_OK) else os.environ.get("TMPDIR", "/var/tmp")
 
 WRAP_PTHREAD = ("pthread_create pthread_join pthread_detach pthread_mutex_init pthread_mutex_destroy pthread_mutex_lock "
@@ -493,3 +493,15 @@ def handle_violations(prop, by_sig, replay_cmd, make_replay_for, classify=None, 
         lines.append("  detail: %s" % (cand.get("detail", "")[:1500]))
         new += 1
     return new, known_seen, internal, lines
+
+
+def dump_hashes(prop, allres):
+    """Determinism self-test support: VERIF_DUMP_HASHES=<file> makes a check write one line per run
+    (index, event-log hash, interleaving hash, verdict signature), sorted, so that two executions of the same seed at
+    different worker counts can be diffed (tools/selftest_determinism.py)."""
+    path = os.environ.get("VERIF_DUMP_HASHES")
+    if not path:
+        return
+    lines = sorted("%s %s %s %s %s %s" % (r.get("combo", r.get("variant", r.get("k", ""))), r.get("idx"), r.get("log"), r.get("il"), r.get("sig"), r.get("outhash", "")) for r in allres)
+    with open(path, "w") as f:
+        f.write("\n".join(lines) + "\n")
